@@ -270,6 +270,31 @@ Proof. vm_compute. reflexivity. Qed.
 Lemma wb_shrink_needed : crun true true false cinit stale_shrink = None.
 Proof. vm_compute. reflexivity. Qed.
 
+(** * A growth interrupted by a panic (clone_from): with the write-back on unwind the store stays sound *)
+Theorem cgrow_unwound_inv s i add want : CInv s -> exists s', cgrow_unwound true s i add want = Some s' /\ CInv s'.
+Proof.
+  intros H. unfold cgrow_unwound.
+  destruct (@cstep_inv s (CReserve i add want) H) as (s1 & -> & H1).
+  exact (@cstep_inv s1 (CSetLen i 0) H1).
+Qed.
+
+Lemma fact_wb_unwind : fact_clone_from_writes_back_on_unwind = true.
+Proof. reflexivity. Qed.
+
+Theorem cgrow_unwound_src_inv s i add want : CInv s -> exists s', cgrow_unwound_src s i add want = Some s' /\ CInv s'.
+Proof. unfold cgrow_unwound_src. rewrite fact_wb_unwind. apply cgrow_unwound_inv. Qed.
+
+(** ... and without it the column keeps the raw parts of the released block: freeing it later is UB *)
+Lemma wb_unwind_needed :
+  match crun true true true cinit [CNew false 0; CPush 0 1%N 1] with
+  | Some s => match cgrow_unwound false s 0 5 0 with
+              | Some s1 => cstep true true true s1 (CFree 0) = None
+              | None => False
+              end
+  | None => False
+  end.
+Proof. vm_compute. reflexivity. Qed.
+
 (** non-vacuity: a history that grows, shrinks, mixes a zero-sized column in and ends non-empty *)
 Example cols_example :
   match crun true true true cinit
